@@ -18,7 +18,7 @@ import tempfile
 import traceback
 from pathlib import Path
 
-SUPPORTED = {"py": "Python", "js": "JavaScript", "ts": "TypeScript", "c": "C", "java": "Java", "cpp": "C++", "cs": "C#"}
+SUPPORTED = {"py": "Python", "js": "JavaScript", "ts": "TypeScript", "c": "C", "java": "Java", "cpp": "C++", "cs": "C#", "h": "C"}
 
 
 def body(ext, name, n):
@@ -100,12 +100,13 @@ def run_c04(tmp, tier, rnd):
     """scan, insert layout-only lines, scan again (the second scan finds the cache of the first): names, order and lengths are
     unchanged and every line number moves by the number of lines inserted above it"""
     fails, n = [], 0
-    comment = {"py": "# note", "js": "// note", "ts": "// note", "c": "/* note */", "java": "// note", "cpp": "// note", "cs": "// note"}
-    for ext in ("py", "js", "ts", "c", "java", "cpp", "cs"):
+    comment = {"py": "# note", "js": "// note", "ts": "// note", "c": "/* note */", "java": "// note", "cpp": "// note", "cs": "// note",
+               "h": "/** @code x @endcode @interface Foo #import <a.h> */", "hpp": "// template<class T> namespace x { using namespace std;"}
+    for ext in ("py", "js", "ts", "c", "java", "cpp", "cs", "h", "hpp"):
         base = body(ext, "small", 4) + body(ext, "big", 35) if ext != "java" else body(ext, "big", 35)
         lines = base.split("\n")
         edits = []
-        for filler in ("", "    ", "\t", comment[ext]):
+        for filler in ("", "    ", "\t", comment[ext], comment["h"] if ext in ("c", "cpp", "h", "hpp") else comment[ext].replace("note", "@endcode #import def function class")):
             for at in (0, 1, len(lines) // 2, len(lines) - 1):
                 edits.append((filler, at, 1))
             edits.append((filler, 0, 3))
@@ -132,11 +133,45 @@ def run_c04(tmp, tier, rnd):
 
             def shift(line):
                 return line + (k if line - 1 >= at else 0)
+            if before is None or after is None:
+                fails.append(("cached-scan:file-not-reported", f"{rel}: {'the original' if before is None else 'the edited'} file is not in the report "
+                              f"({k} line(s) {filler!r} inserted before line {at + 1})", None))
+                continue
             want = None if before is None else [(nm, v, shift(a), shift(b)) for nm, v, a, b in before]
             # a line inserted inside a function's span moves its end but is not counted; the start moves only if above
             if after != want:
                 fails.append(("cached-scan:changed", f"{ext}: {k} line(s) {filler!r} inserted before line {at + 1}, then a scan that finds the "
                               f"previous cache: expected {want}, reported {after}", None))
+    # the findings list (functions longer than 30 lines, across files): layout-only edits leave its order unchanged
+    from codelimit.common.report.ReportReader import ReportReader
+
+    def findings(root_):
+        rep = ReportReader.from_json((Path(root_) / ".codelimit_cache" / "codelimit.json").read_text())
+        return [(u.file, u.measurement.unit_name, u.measurement.value) for u in rep.all_report_units_sorted_by_length_asc(30)]
+    for names in (("a.py", "b.py", "c.js"), ("z.c", "m.c", "a.c")):
+        for target in range(len(names)):
+            for k in (1, 3, 40):
+                n += 1
+                root = Path(tmp) / "c04f"
+                if root.exists():
+                    shutil.rmtree(root)
+                root.mkdir()
+                for i, nm in enumerate(names):
+                    ext = nm.rsplit(".", 1)[-1]
+                    (root / nm).write_text("\n" * i + body(ext, "same", 35) + body(ext, "other", 35 + i))
+                set_excludes([])
+                try:
+                    scan(root)
+                    before = findings(root)
+                    f = root / names[target]
+                    f.write_text((comment[names[target].rsplit(".", 1)[-1]] + "\n") * k + f.read_text())
+                    scan(root)
+                    after = findings(root)
+                except Exception as e:  # noqa
+                    fails.append(("findings:exception", f"{type(e).__name__}: {e}", None))
+                    continue
+                if after != before:
+                    fails.append(("findings:order-changed", f"{k} comment line(s) on top of {names[target]}: findings were {before}, are {after}", None))
     return fails, n
 
 
@@ -307,7 +342,27 @@ def c10_faults(doc_text, tier, rnd):
     if tier == "quick":
         rnd.shuffle(vs)
         vs = vs[:80]
-    return faults + vs
+
+    # near-miss types on every number: a boolean or a float where an integer belongs (bool is a subclass of int)
+    def numbers(obj, path=()):
+        if isinstance(obj, dict):
+            for k in obj:
+                yield from numbers(obj[k], path + (k,))
+        elif isinstance(obj, list):
+            for i, x in enumerate(obj[:2]):
+                yield from numbers(x, path + (i,))
+        elif isinstance(obj, int) and not isinstance(obj, bool):
+            yield path
+    near = []
+    for path in numbers(d):
+        for wrong in (True, False, 1.5):
+            c = json.loads(json.dumps(d))
+            t = c
+            for p_ in path[:-1]:
+                t = t[p_]
+            t[path[-1]] = wrong
+            near.append((f"wrong-type:{'/'.join(map(str, path))}={wrong!r}", json.dumps(c)))
+    return faults + vs + near
 
 
 def run_c10(tmp, tier, rnd):
@@ -360,12 +415,36 @@ def run_c10(tmp, tier, rnd):
                 fails.append((name.split("@")[0].split(":")[0] + ":second-scan-differs", f"cache fault {name}", name))
         except BaseException as e:  # noqa
             fails.append((name.split("@")[0].split(":")[0] + ":second-scan-fails", f"cache fault {name}: {type(e).__name__}", name))
+    # real crash points: a scan in a child process whose file size limit cuts the cache write (the kernel stops the write at
+    # that many bytes and the process dies or fails); whatever it leaves behind, the next scan succeeds and repairs the cache
+    sizes = [0, 1, 7, 40, 64, 200, 1000, len(doc_text) - 1] if tier == "quick" else list(range(0, len(doc_text) + 40, 23))
+    for start_state in ("no-cache", "valid-cache"):
+        for size in sizes:
+            n += 1
+            if cdir.exists():
+                shutil.rmtree(cdir)
+            if start_state == "valid-cache":
+                scan(root)
+            code = ("import resource, signal, sys; signal.signal(signal.SIGXFSZ, signal.SIG_DFL); "
+                    f"resource.setrlimit(resource.RLIMIT_FSIZE, ({size}, {size})); sys.argv = ['x', '--interrupted-scan', {str(root)!r}]; "
+                    f"exec(open({os.path.abspath(__file__)!r}).read())")
+            subprocess.run([sys.executable, "-c", code], capture_output=True, text=True, timeout=300)
+            name = f"write-cut-at-{size}-bytes-from-{start_state}"
+            left = sorted(p_.name for p_ in cdir.iterdir()) if cdir.exists() else []
+            try:
+                got = scan(root)
+                if norm(got) != want:
+                    fails.append(("interrupted-write:tainted-report", f"{name} (left behind: {left}): report differs from the fresh scan", name))
+                elif norm(scan(root)) != want:
+                    fails.append(("interrupted-write:second-scan-differs", f"{name} (left behind: {left})", name))
+            except BaseException as e:  # noqa
+                fails.append(("interrupted-write:scan-fails", f"{name} (left behind: {left}): {type(e).__name__}: {str(e)[:120]}", name))
     return fails, n
 
 
 # ------------------------------------------------------------------------------------------- C11 / C12
 DIRS = ["", "src", "src/sub", "src/.gen", "lib", "lib/tests", ".hid", "tests", "build", "node_modules", "venv", "docs/api", "src/docs", "src/generated", "generated"]
-FILES = ["a.py", "b.js", "c.ts", "d.c", "e.txt", "Makefile", ".h.py", "F.java", "noext", "SConstruct", "LICENSE", "SConscript"]
+FILES = ["a.py", "b.js", "c.ts", "d.c", "e.txt", "Makefile", ".h.py", "F.java", "noext", "SConstruct", "LICENSE", "SConscript", "g.h"]
 # names without an extension that Pygments maps to a supported language (its PythonLexer lists them)
 NAME_LANG = {"SConstruct": "py", "SConscript": "py"}
 
@@ -426,7 +505,9 @@ def make_tree(root, rnd, dirs=None):
         for f in rnd.sample(FILES, rnd.randint(1, 4)):
             ext = ext_of(f)
             n = rnd.choice([3, 35, 65])
-            content = body(ext, "fn", n) if ext in ("py", "js", "ts", "c", "java") else "text\n"
+            content = body(ext, "fn", n) if ext in ("py", "js", "ts", "c", "java", "h") else "text\n"
+            if ext == "h" and rnd.random() < 0.5:
+                content = "/** @code x @endcode */\n" + content
             if rnd.random() < 0.4:
                 ls = content.split("\n")
                 ls.insert(rnd.randint(0, len(ls) - 1), rnd.choice(["", "   ", "\t"]))
@@ -445,12 +526,21 @@ def run_c11(tmp, tier, rnd):
     cases.append((DIRS, [], "option"))
     for _ in range(10 if tier == "quick" else 150):
         cases.append((None, rnd.choice(EXCL_SETS), rnd.choice(["option", "gitignore", "both"])))
+    cases_done = []
     for dirs, ex, via in cases:
         root = Path(tmp) / "w" / "tree"
         chosen = make_tree(root, rnd, dirs)
         opt = ex if via in ("option", "both") else []
         if via in ("gitignore", "both"):
-            (root / ".gitignore").write_text("\n".join(ex) + "\n")
+            # with and without a final newline, with a comment and a blank line, with CRLF line ends
+            style = len(cases_done) % 4
+            cases_done.append(style)
+            text = "\n".join(ex) + ("\n" if style == 0 else "")
+            if style == 2:
+                text = "# generated\n\n" + "\n".join(ex)
+            if style == 3:
+                text = "\r\n".join(ex) + "\r\n"
+            (root / ".gitignore").write_bytes(text.encode())
         want = expected_files(str(root), ex)
         for mode in ("absolute", "relative", "dotdot"):
             n += 1
@@ -918,6 +1008,10 @@ def run_c06(tmp, tier, rnd):
 def main():
     if sys.argv[1] == "--digest":
         print(json.dumps(corpus_digest(int(sys.argv[2]))))
+        return
+    if sys.argv[1] == "--interrupted-scan":
+        set_excludes([])
+        scan(sys.argv[2])
         return
     if sys.argv[1] == "--scan-files":
         from codelimit.common.Scanner import scan_path
